@@ -74,7 +74,18 @@ def run_crosses(chk, crosses, points):
                 if p.outcome != "return":
                     continue
                 try:
-                    if all(sym.bool_eval(cond, env, sym_fns) for cond in p.pc):
+                    ok = True
+                    for cond in p.pc:
+                        try:
+                            if not sym.bool_eval(cond, env, sym_fns):
+                                ok = False
+                                break
+                        except KeyError:
+                            # a fact about collaborators that are not part of this scenario (e.g. w = e + p of the EOS): not a branch decision
+                            if isinstance(cond, sp.Eq):
+                                continue
+                            raise
+                    if ok:
                         chosen = p
                         break
                 except (KeyError, ValueError, ZeroDivisionError, OverflowError, TypeError):
@@ -130,3 +141,5 @@ def run_crosses(chk, crosses, points):
             chk.crosscheck["disagreements"] += 1
             chk.crosscheck.setdefault("details", []).append({"id": r["id"], "symbolic": want, "native": got, "env": env})
     chk.crosscheck["functions"] = len(seen)
+    if "details" in chk.crosscheck:
+        chk.crosscheck["details"] = chk.crosscheck["details"][:5]
